@@ -8,7 +8,15 @@ EXTENDS HTTPRouter, Json, IOUtils
 
 VARIABLES l, st, skipping, fails, cs
 
-RInit(e) == [api |-> e.api]
+RInit(e) == [api |-> e.api, via |-> e.via]
+
+\* Named deviation DocsShadow (the subject of C20): the full API handler (via = "api") answers the documentation page at
+\* <basePath>/docs and the spec at /swagger.json itself, whatever the description routes there; such requests are not judged here.
+DocsWord == <<100,111,99,115>>
+SwaggerJSON == <<47,115,119,97,103,103,101,114,46,106,115,111,110>>
+Shadowed(s, e) ==
+  /\ s.via = "api"
+  /\ Clean(PathUnescape(e.escaped)) \in {JoinSegs(Append(s.api.base.segs, DocsWord)), SwaggerJSON}
 
 \* atom encoding of the driver: c | 256 + c (%XX) | 512 + c (%xx)
 AtomOf(n) == [esc |-> n >= 256, c |-> n % 256, lc |-> n >= 512]
@@ -26,8 +34,7 @@ MatchedOK(e) == (Len(e.ran) = 1) => (e.matched /\ ParamSet(e.mparams) = ParamSet
 
 RAllowed(s, e) ==
   CASE e.ev = "serve" -> /\ EscapedOK(e)
-                         /\ DispatchAllowed(s.api, ReqOf(e), ObsOf(e))
-                         /\ MatchedOK(e)
+                         /\ Shadowed(s, e) \/ (DispatchAllowed(s.api, ReqOf(e), ObsOf(e)) /\ MatchedOK(e))
     [] OTHER -> FALSE
 
 RWhy(s, e) ==
